@@ -470,7 +470,7 @@ Section gen.
 
   Fixpoint needs_deallocate (w : dealloc_what) (t : ty) {struct t} : bool :=
     match t with
-    | TString | TErrCtx | TList _ | TMap _ _ => true
+    | TString | TList _ | TMap _ _ => true
     | TOwn | TFuture _ | TStream _ => handles w
     | TRecord fs | TTuple fs => existsb (needs_deallocate w) fs
     | TVariant cs => existsb (fun c => match c with Some x => needs_deallocate w x | None => false end) cs
@@ -534,7 +534,13 @@ Section gen.
     | TVariant cs => variant (int_bytes (N.of_nat (length cs))) cs
     | TOption x => variant 1%N (cases_of_option x)
     | TResult a b => variant 1%N (cases_of_result a b)
-    | _ => ret tt          (* FixedLengthList => {}, ErrorContext => {}, … *)
+    | TFixed x n =>
+        (* elements are stored inline, one after another *)
+        let es := sa_size x in
+        mapM_ (fun i => dealloc_indirect w x addr
+                          (a_add off (az (a_bytes es * N.of_nat i) (a_ptrs es * N.of_nat i))))
+              (seq 0 (N.to_nat n))
+    | _ => ret tt          (* ErrorContext => {}, Flags, Enum, … *)
     end.
 
   Fixpoint dealloc (w : dealloc_what) (t : ty) {struct t} : M unit :=
@@ -593,7 +599,20 @@ Section gen.
     | TVariant cs => variant cs
     | TOption x => variant (cases_of_option x)
     | TResult a b => variant (cases_of_result a b)
-    | TFixed _ _ => fail STodoFixedDealloc
+    | TFixed x n =>
+        (* flat_for_each_record_type over [size] copies of the element type *)
+        temp_all <- flat_unwrap t ;;
+        args <- drain (length temp_all) ;;
+        (fix go (k : nat) (args : list nat) {struct k} : M unit :=
+           match k with
+           | O => ret tt
+           | S k' =>
+               temp <- flat_unwrap x ;;
+               (if (length args <? length temp)%nat then fail SStackUnderflow else ret tt) ;;;
+               push_all (firstn (length temp) args) ;;;
+               dealloc w x ;;;
+               go k' (skipn (length temp) args)
+           end) (N.to_nat n) args
     | _ => _ <- pop ;; ret tt
     end.
 
